@@ -403,8 +403,13 @@ class SolverActor:
             for i, ls in enumerate(self.spec.get("listeners", [])):
                 if ls["kind"] == "recording":
                     lst = make_recording_listener(self, i, ls["overrides"], ls.get("via", "direct"))
+                elif ls.get("shared") and ls["shared"] in w.shared_listeners:
+                    lst = w.shared_listeners[ls["shared"]]        # ONE listener object attached to several solvers
+                    w.fired["listener_object_attached_to_several_solvers"] += 1
                 else:
                     lst = make_shipped_listener(ls)
+                    if ls.get("shared"):
+                        w.shared_listeners[ls["shared"]] = lst
                 self.listeners.append(lst)
                 self.solver.AddListener(lst)
             if self.brackets:
@@ -835,6 +840,7 @@ class World:
             self.actors[aid] = SolverActor(self, aid, plan["actors"][aid])
         self.shared_params = {}
         self.shared_problems = {}
+        self.shared_listeners = {}
         self.exec_stack = []
         self.nested_eval = {}
         self.nested_cb = {}
